@@ -78,8 +78,4 @@ Fixpoint outs_agree (ops : list (op V M IX)) (x y : list (out V)) : Prop :=
   | _, _, _ => False
   end.
 
-(** a history is disciplined from a given store (C01's [Disciplined]) — restated for two stores at once *)
-Definition both_disciplined (chk : bool) (s1 s2 : store V) (ops : list (op V M IX)) : Prop :=
-  Disciplined g sm fx chk s1 ops /\ Disciplined g sm fx chk s2 ops.
-
 End Revert.
